@@ -150,3 +150,20 @@ def ev_int(model, t):
 
 def ev_bool(model, t):
     return z3.is_true(model.eval(t, model_completion=True))
+
+
+def make_autoref(A, manager):
+    """A `dd.autoref.BDD` wrapper around an existing `dd.bdd.BDD` manager, built the way
+    `autoref.BDD.__init__` builds it (so that whatever state the wrapper keeps exists), with
+    the inner manager replaced afterwards."""
+    abdd = A.BDD.__new__(A.BDD)
+    try:
+        A.BDD.__init__(abdd)
+        inner = abdd.__dict__.get('_bdd')
+        if inner is not None and inner is not manager:
+            inner.__class__ = type(manager)      # the throw-away inner manager: no shutdown check
+    except Exception:
+        pass
+    abdd._bdd = manager
+    abdd.vars = manager.vars
+    return abdd
